@@ -544,6 +544,9 @@ def run(ctx, tier):
     results += c06.shared_freelist(ctx, rule='C09.shared-freelist')
     # no committed update is lost to a second creator: open writes only into a file it has just created exclusively
     results += c06.open_existing(ctx, rule='C09.open-existing')
+    # commit consumes the transaction, and with it the writer lock
+    import c03
+    results += c03.snapshot_fixed(ctx, rule='C09.snapshot-fixed')
     return dict(
         results=results, stats=dict(ctx.stats),
         explanation=(
